@@ -140,6 +140,10 @@ func runProperty(p *Property, tier, only, overlaySpec string, controlMode bool) 
 		ov = map[string][]byte{parts[0]: data}
 	}
 	c := &Ctx{Prop: p.ID, Tier: tier, floors: map[string]int{}, counts: map[string]int{}}
+	if overlaySpec != "" {
+		parts := strings.SplitN(overlaySpec, "=", 2)
+		c.OverlayFiles = map[string]string{parts[0]: parts[1]}
+	}
 	var err error
 	if p.NeedKernel {
 		if c.K, err = loadModule("kernel", 15, ov); err != nil {
